@@ -124,3 +124,14 @@ Definition hsx_unmarshal : N -> bytes -> option hsx := env_unmarshal hsmsgx msgx
 Definition hsx_marshal : hsx -> option bytes := env_marshal hsmsgx msgx_type msgx_enc.
 Definition hsx_wf : N -> hsx -> bool := env_wf hsmsgx msgx_type msgx_enc msgx_wf.
 Definition w_hsx (kx : N) : wcodec hsx := w_env hsmsgx msgx_type msgx_enc msgx_dec msgx_wf kx.
+
+(* ------------------------------------------------------------------ internal/negotiation canonicalize *)
+
+(* canonicalize(message, fresh): raw := message.Marshal(); fresh.Unmarshal(raw) - what a hello hook
+   handed back is replaced by what its own encoding decodes to (validatedClientHello,
+   validatedServerHello, FinalizeClientHello, FinalizeServerHello) *)
+Definition canonicalize {A} (w : wcodec A) (x : A) : option A :=
+  match wenc w x with
+  | Some raw => wdec w raw
+  | None => None
+  end.
